@@ -44,7 +44,7 @@ pub fn run() -> i32 {
         let defined: Vec<String> = (0..3).filter(|l| present & (1 << l) != 0).map(|l| format!("{}::T", LEVELS[l])).collect();
         for user_level in 0..3usize {
             for sp in spellings {
-                for via_alias in [None, Some(0usize), Some(2usize)] {
+                for via_alias in if std::env::var("VERIF_BOUNDED_DEEP").is_ok() { vec![None, Some(0usize), Some(1usize), Some(2usize)] } else { vec![None, Some(0usize), Some(2usize)] } {
                     // the alias (when used) is defined at level `al`; the field then refers to the alias by its global name
                     let (field_ty, resolve_scope) = match via_alias { None => (sp.to_owned(), LEVELS[user_level]), Some(al) => (format!("::{}::Al", LEVELS[al]), LEVELS[al]) };
                     let want = resolve(&defined, resolve_scope, sp);
